@@ -534,6 +534,27 @@ Qed.
 
 (* ---------- readable corollaries: the five parties are different accounts ---------- *)
 Ltac nodup H := repeat (apply NoDup_cons_iff in H; let Hn := fresh "Hn" in destruct H as [Hn H]); cbn [In] in *.
+Ltac split_nots := repeat match goal with
+  | H : ~ (_ \/ _) |- _ => apply Decidable.not_or in H; let H1 := fresh "Hne" in destruct H as [H1 H]
+  | H : ~ False |- _ => clear H
+  end.
+Ltac neq_facts := repeat match goal with
+  | H : ?x <> ?y |- _ =>
+      let E1 := fresh "Ef" in let E2 := fresh "Ef" in
+      assert (E1 : (x =? y) = false) by (apply N.eqb_neq; exact H);
+      assert (E2 : (y =? x) = false) by (apply N.eqb_neq; intro; apply H; symmetry; assumption);
+      clear H
+  end.
+Ltac simp_eqb H :=
+  repeat (match goal with E : (_ =? _) = false |- _ => progress (rewrite E in H) end);
+  rewrite ?N.eqb_refl in H; cbn [andb] in H.
+Ltac clear_eqb := repeat match goal with E : (_ =? _) = false |- _ => clear E end.
+Ltac at_slot Heq a d := specialize (Heq a d); simp_eqb Heq; clear_eqb; lia.
+Ltac elsewhere Heq a d dn Hnot :=
+  specialize (Heq a d); destruct (d =? dn) eqn:Ed; rewrite ?Ed in Heq;
+  [ apply N.eqb_eq in Ed; destruct Hnot as [Hnot|Hnot]; [ contradiction | ];
+    cbn [In] in Hnot; split_nots; neq_facts; simp_eqb Heq; clear_eqb; lia
+  | rewrite ?andb_false_r in Heq; clear_eqb; lia ].
 
 (* public / whitelist mint *)
 Theorem world_nonadmin_mint_distinct vr s b st s' b' ms :
@@ -566,14 +587,14 @@ Proof.
   set (payer := e_sender (st_env st)) in *. clearbody payer.
   set (minter := e_contract (st_env st)) in *. clearbody minter.
   set (seller := seller_of s) in *. clearbody seller.
-  nodup Hnd.
+  nodup Hnd. split_nots. neq_facts.
   split; [ exact Hle | ]. split; [ exact Hll | ].
-  split; [ specialize (Heq payer dn); case_ifs; lia | ].
-  split; [ specialize (Heq minter dn); case_ifs; lia | ].
-  split; [ specialize (Heq seller dn); case_ifs; lia | ].
-  split; [ specialize (Heq A_LIQUIDITY_DAO dn); case_ifs; lia | ].
-  split; [ specialize (Heq A_LAUNCHPAD_DAO dn); case_ifs; lia | ].
-  intros a d Hnot. specialize (Heq a d). case_ifs; lia.
+  split; [ at_slot Heq payer dn | ].
+  split; [ at_slot Heq minter dn | ].
+  split; [ at_slot Heq seller dn | ].
+  split; [ at_slot Heq A_LIQUIDITY_DAO dn | ].
+  split; [ at_slot Heq A_LAUNCHPAD_DAO dn | ].
+  intros a d Hnot. elsewhere Heq a d dn Hnot.
 Qed.
 
 (* airdrop (MintTo / MintFor): the payer is the admin; nothing is sent to a seller *)
@@ -617,13 +638,13 @@ Proof.
   destruct H2 as (_ & Hll & Heq).
   set (payer := e_sender (st_env st)) in *. clearbody payer.
   set (minter := e_contract (st_env st)) in *. clearbody minter.
-  nodup Hnd.
+  nodup Hnd. split_nots. neq_facts.
   split; [ exact Hll | ].
-  split; [ specialize (Heq payer dn); case_ifs; lia | ].
-  split; [ specialize (Heq minter dn); case_ifs; lia | ].
-  split; [ specialize (Heq A_LIQUIDITY_DAO dn); case_ifs; lia | ].
-  split; [ specialize (Heq A_LAUNCHPAD_DAO dn); case_ifs; lia | ].
-  intros a d Hnot. specialize (Heq a d). case_ifs; lia.
+  split; [ at_slot Heq payer dn | ].
+  split; [ at_slot Heq minter dn | ].
+  split; [ at_slot Heq A_LIQUIDITY_DAO dn | ].
+  split; [ at_slot Heq A_LAUNCHPAD_DAO dn | ].
+  intros a d Hnot. elsewhere Heq a d dn Hnot.
 Qed.
 
 (* outside the known class (nothing left after the fee: price = 0 or fee = price) the
@@ -658,3 +679,19 @@ Proof.
   set (fee := fp_airdrop_price (st_fp st) * fp_airdrop_fee_bps (st_fp st) / 10000) in *. clearbody fee.
   lia.
 Qed.
+
+Lemma world_mint_exact_funds vr s b st s' b' ms :
+  is_mint_op (st_op st) = true ->
+  world_step vr s b st = Ok (s', b', ms) ->
+  exists price dn,
+    mint_price s (st_fp st) (st_wv st) (is_airdrop (st_op st)) = Ok (price, dn) /\
+    e_funds (st_env st) = (if price =? 0 then [] else [mkCoin dn price]).
+Proof.
+  intros Hm H.
+  destruct (world_mint vr s b st s' b' ms Hm H) as (price & dn & H1 & H2 & _).
+  exists price, dn. split; [ exact H1 | exact H2 ].
+Qed.
+
+Lemma liq_part_spelled featured fee :
+  liq_part featured fee = (if featured then (fee + 7) / 8 else (fee + 4) / 5) /\ liq_part featured fee <= fee.
+Proof. split; [ reflexivity | apply liq_part_le ]. Qed.
